@@ -692,7 +692,7 @@ def run_witnesses(ctx):
 
 def run(ctx):
     run_witnesses(ctx)
-    n = 600 if ctx.quick else 40000
+    n = 600 if ctx.quick else 12000
     ctx.coverage["rule"] = (
         "terms of Scope/PySyntax.v from one seeded PRNG, rendered to source: 3/4 'executed' programs (no else/handler/"
         "star/__all__, every def and lambda registered and run after the module), 1/4 'free' programs (all constructs); "
@@ -712,6 +712,7 @@ def run(ctx):
 
 
 def replay(payload):
+    """re-run one recorded case through implementation, model and oracle; print the three results"""
     case = payload.get("case") or payload["disagreements"][0]["case"]
     if "prog" not in case:
         print("case has no term")
@@ -720,6 +721,13 @@ def replay(payload):
     src, term, ids = prepare(c)
     impl = cm.run_impl("c05", "impl_case", [{"kind": c["kind"], "src": src, "ns": c["ns"]}], jobs=1)
     model = cm.coq_eval_json(REQ, [model_expr(c, term, ids)])
+    mo = decode(model[0], ids)
+    ctx = cm.Ctx("C05", "replay", 0)
+    check_case(ctx, c, src, ids, impl[0], mo)
     print(src)
-    print(json.dumps({"impl": impl[0], "model": decode(model[0], ids)}, indent=1))
+    print(json.dumps({"namespaces": c["ns"], "impl": impl[0], "model": mo,
+                      "oracle_violations": [{"name": v["name"], "detail": v["detail"]} for v in ctx.violations],
+                      "known_findings": ctx.known_hits,
+                      "disagreements": [{"name": d["name"], "impl": d["impl"], "model": d["model"]} for d in ctx.disagreements]},
+                     indent=1, default=str))
     return 0
